@@ -1031,6 +1031,7 @@ func (d Driver) Run(c *core.Ctx) error {
 	// 3. text documents
 	var nDocs, nNontrivial, nValidated, nEvents int64
 	seen := sync.Map{}
+	sem := make(chan struct{}, 4) // concurrent Trace_FontEmbed processes
 	run := func(o tlc.Opts) {
 		jobs := make(chan job, 1024)
 		outs := make(chan done, 1024)
@@ -1044,7 +1045,7 @@ func (d Driver) Run(c *core.Ctx) error {
 			jobs <- job{int(atomic.AddInt64(&id, 1)), &s}
 		}
 		var wgExec sync.WaitGroup
-		for w := 0; w < 12; w++ {
+		for w := 0; w < 6; w++ {
 			wgExec.Add(1)
 			go func() {
 				defer wgExec.Done()
@@ -1072,7 +1073,6 @@ func (d Driver) Run(c *core.Ctx) error {
 			}()
 		}
 		var wgVal sync.WaitGroup
-		sem := make(chan struct{}, 4)
 		flush := func(chunk []done) {
 			if len(chunk) == 0 {
 				return
@@ -1122,12 +1122,22 @@ func (d Driver) Run(c *core.Ctx) error {
 		<-collected
 		wgVal.Wait()
 	}
-	run(tlc.Opts{Module: "FontEmbed", Config: genCfg("short", 0, 0, 0, false)})
-	run(tlc.Opts{Module: "FontEmbed", Config: genCfg("modes", 0, 0, 0, false)})
-	run(tlc.Opts{Module: "FontEmbed", Config: genCfg("random", 0, c.Pick(100, 1500), c.Pick(10, 12), false), Seed: c.Seed})
-	if c.Thorough() {
-		run(tlc.Opts{Module: "FontEmbed", Config: genCfg("random", 0, 1000, 6, false), Seed: c.Seed + 500})
+	var wgRuns sync.WaitGroup
+	goRun := func(o tlc.Opts) {
+		wgRuns.Add(1)
+		go func() {
+			defer wgRuns.Done()
+			o.Timeout = 40 * time.Minute // the generator is throttled by the executing workers: its wall time is the pipeline's
+			run(o)
+		}()
 	}
+	goRun(tlc.Opts{Module: "FontEmbed", Workers: 4, Config: genCfg("short", 0, 0, 0, false)})
+	goRun(tlc.Opts{Module: "FontEmbed", Workers: 4, Config: genCfg("modes", 0, 0, 0, false)})
+	goRun(tlc.Opts{Module: "FontEmbed", Workers: 4, Config: genCfg("random", 0, c.Pick(100, 1500), c.Pick(10, 12), false), Seed: c.Seed})
+	if c.Thorough() {
+		goRun(tlc.Opts{Module: "FontEmbed", Workers: 4, Config: genCfg("random", 0, 1000, 6, false), Seed: c.Seed + 500})
+	}
+	wgRuns.Wait()
 	c.Count(nDocs+nHist, nNontrivial+nHistNontrivial, nValidated+nHist)
 	c.SetExtra("documents", nDocs)
 	c.SetExtra("subsetter_histories", nHist)
